@@ -114,10 +114,10 @@ Section LeafAll.
     apply shp_MDense_Some in Hs. destruct Hs as [Lv ->]. cbn [fst snd].
     destruct (dense_all_spec p p_def v) as [[E H]|[E H]]; rewrite E.
     - split; [|discriminate]. intros _ i j Hi Hj. cbn [mf]. rewrite val_MDense.
-      apply p_TT. apply (Forall_nth_e0 (fun x => p x = TT)); [assumption | nia].
+      cbn [mr mc] in Hi, Hj. apply p_TT. apply (Forall_nth_e0 (fun x => p x = TT)); [assumption | rewrite Lv; nia].
     - split; [discriminate|]. intros _ HP. apply (Exists_nth _ _ e0) in H. destruct H as (k & Hk & Hp).
       apply p_TF in Hp. apply Hp. rewrite Lv in Hk.
-      assert (Hn : 0 < n) by (destruct n; [lia | lia]).
+      assert (Hn : 0 < n) by (destruct n; [rewrite Nat.mul_0_r in Hk; lia | lia]).
       destruct (flat_index n k Hn) as [Ek Hmod].
       specialize (HP (k / n) (k mod n) (flat_index_row m n k Hk) Hmod). cbn [mf] in HP.
       rewrite val_MDense, <- Ek in HP. exact HP.
@@ -142,7 +142,7 @@ Proof.
     intros V HV. split; [|discriminate]. intros _ i j _ _.
     apply denote_Some in HV. destruct HV as (s & Hs & ->). reflexivity.
   - apply (diag_all_sound tz (fun x => x = e0) tz_cases tz_TT tz_TF eq_refl).
-  - apply (dense_all_sound tz (fun x => x = e0) tz_cases tz_TT tz_TF eq_refl).
+  - apply (dense_all_sound tz (fun x => x = e0) tz_cases tz_TT tz_TF).
 Qed.
 
 (* ---------------------------------------------------------------- is_real *)
@@ -158,7 +158,7 @@ Proof.
   - intros V HV. split; [|discriminate]. intros _ i j _ _.
     apply denote_Some in HV. destruct HV as (s & Hs & ->). reflexivity.
   - apply (diag_all_sound trl (fun x => snd x = qc0) trl_cases trl_TT trl_TF eq_refl).
-  - apply (dense_all_sound trl (fun x => snd x = qc0) trl_cases trl_TT trl_TF eq_refl).
+  - apply (dense_all_sound trl (fun x => snd x = qc0) trl_cases trl_TT trl_TF).
 Qed.
 
 (* ---------------------------------------------------------------- is_square *)
